@@ -1127,9 +1127,24 @@ def _(ex, a):
 
 
 @prim('<AHashMap as Default>::default', '<HashMap as Default>::default', 'AHashMap::new', 'HashMap::new',
-      'AHashMap::with_capacity', 'HashMap::with_capacity', 'HashMap::with_hasher',
-      'HashMap::with_capacity_and_hasher')
+      'HashMap::with_hasher')
 def _(ex, a):
+    return Agg('HashMap', [], x={'set': False})
+
+
+def _cap_check(ex, n, what):
+    # hashbrown / RawVec: a capacity whose byte size exceeds isize::MAX panics ("capacity overflow"); anything the
+    # allocator cannot serve aborts the process.  Either way the call does not return.
+    if is_sym(n):
+        if ex.branch(n > 2 ** 40):
+            raise RustPanic(what + ': capacity overflow / allocation failure')
+    elif n > 2 ** 40:
+        raise RustPanic(what + ': capacity overflow / allocation failure')
+
+
+@prim('AHashMap::with_capacity', 'HashMap::with_capacity', 'HashMap::with_capacity_and_hasher')
+def _(ex, a):
+    _cap_check(ex, a[0], 'Hash table')
     return Agg('HashMap', [], x={'set': False})
 
 
@@ -1515,15 +1530,67 @@ def to_rust(x):
     return Agg('Vec', [Agg('tuple', list(row)) for row in x])
 
 
+HUGE = 2 ** 64 - 1
+
+
+def _type_arg(callee):
+    i = callee.rfind('::<')
+    return callee[i + 3:-1].strip() if i >= 0 and callee.endswith('>') else ''
+
+
+def _crate_deserialize(ex, tname):
+    """gdsl's own `impl Deserialize for T` (any flavour) for the bare type name tname, or None"""
+    last = strip_generics_simple(tname).split('::')[-1]
+    hits = [f for (fl, ty, meth), cands in ex.ix.methods.items() if ty == last and meth == 'deserialize' for (f, tr, st) in cands]
+    return hits
+
+
+def strip_generics_simple(t):
+    i = t.find('<')
+    return t if i < 0 else t[:i]
+
+
 @prim('<A as SeqAccess>::next_element')
 def _(ex, a):
+    """the environment's SeqAccess.  An element is a python list (a sequence: rows of scalars), 'err' (an element the
+    format rejects) or {'rows': [...], 'announce': 'huge'} - a sequence whose header announces 2^64-1 elements: the
+    format then delivers the real elements and fails at the end of input."""
     s = ex.deref(a[0])
+    T = _type_arg(ex.cur_callee)
+    if s.x and s.x.get('elem'):                      # inside a sequence: one row per call
+        if s.f[0]:
+            return Ok(Some(Agg('tuple', list(s.f[0].pop(0)))))
+        if s.x.get('announce') == 'huge':
+            return Err(Agg('DeError', ['eof']))
+        return Ok(NONE())
     if not s.f[0]:
         return Ok(NONE())
     el = s.f[0].pop(0)
     if el == 'err':
         return Err(Agg('DeError', ['injected']))
-    return Ok(Some(to_rust(el)))
+    rows, announce = (el['rows'], el.get('announce')) if isinstance(el, dict) else (el, None)
+    if not T.startswith(('Vec<', 'std::vec::Vec<', 'alloc::vec::Vec<')):
+        own = _crate_deserialize(ex, T)
+        if len(own) == 1:
+            # a Deserialize impl of the crate itself: it gets a deserializer positioned at this sequence
+            r = ex.call_fn(own[0], [Agg('StubDe', [[list(r) for r in rows], announce])])
+            return Ok(Some(r.f[0])) if r.variant == 0 else r
+        raise Unsupported('next_element::<%s>' % T)
+    if announce == 'huge':
+        return Err(Agg('DeError', ['eof']))          # serde's Vec visitor caps the hint and reads until the input ends
+    return Ok(Some(to_rust(rows)))
+
+
+@prim('<A as SeqAccess>::size_hint')
+def _(ex, a):
+    s = ex.deref(a[0])
+    if s.x and s.x.get('announce') == 'huge':
+        return Some(HUGE)
+    n = len(s.f[0])
+    return Some(n) if ex.choose(2, label='size-hint') == 0 else NONE()      # formats may or may not know the length
+
+
+DROP_HOOKS['StubDe'] = lambda ex, v: None
 
 
 @prim('<assoc as Error>::custom')
@@ -1534,6 +1601,13 @@ def _(ex, a):
 @prim('<D as Deserializer>::deserialize_seq')
 def _(ex, a):
     vis = a[1]
+    last = strip_generics_simple(vis.kind).split('::')[-1]
+    if isinstance(a[0], Agg) and a[0].kind == 'StubDe':
+        hits = [f for (fl, ty, meth), cands in ex.ix.methods.items() if ty == last and meth == 'visit_seq' for (f, tr, st) in cands]
+        if len(hits) != 1:
+            raise Unsupported('visit_seq of ' + vis.kind)
+        rows, announce = a[0].f
+        return ex.call_fn(hits[0], [vis, Agg('StubSeq', [rows], x={'elem': True, 'announce': announce})])
     fl = vis.kind.split('::')[0]
     cands = ex.ix.methods.get((fl, 'GraphVisitor', 'visit_seq'), [])
     if len(cands) != 1:
@@ -1897,6 +1971,7 @@ def _(ex, a):
 
 @prim('Vec::with_capacity')
 def _(ex, a):
+    _cap_check(ex, a[0], 'Vec')
     return Agg('Vec', [], x={'cap': _cidx(a[0])})
 
 
@@ -2755,3 +2830,69 @@ def _(ex, a):
       '<i64 as ToString>::to_string', '<&K as ToString>::to_string')
 def _(ex, a):
     return Agg('String', _tokens(ex, a[0]))
+
+
+@prim('String::clear')
+def _(ex, a):
+    ex.deref(a[0]).f[:] = []
+    return UNIT()
+
+
+@prim('String::len')
+def _(ex, a):
+    n = 0
+    for t in ex.deref(a[0]).f:
+        if isinstance(t, str):
+            n += len(t)
+        elif isinstance(t, tuple) and t[0] == 'val' and not is_sym(t[1]):
+            n += len(str(t[1]))
+        else:
+            raise Unsupported('length of a string with symbolic content')
+    return n
+
+
+@prim('String::is_empty')
+def _(ex, a):
+    return not ex.deref(a[0]).f
+
+
+def _items_of(ex, src):
+    if isinstance(src, Agg) and src.kind in ITER_KINDS:
+        return drain(ex, src)
+    if isinstance(src, Agg) and src.kind in ('Vec', 'VecDeque', 'array'):
+        return list(src.f)
+    return drain(ex, P_into_iter(ex, src))
+
+
+def P_into_iter(ex, v):
+    for rx, fn in PATTERN_PRIMS:
+        if rx.match('<X as IntoIterator>::into_iter'):
+            return fn(ex, [v])
+    raise Unsupported('into_iter')
+
+
+@prim('<AHashSet as Extend>::extend', '<HashSet as Extend>::extend')
+def _(ex, a):
+    for it in _items_of(ex, a[1]):
+        P['HashSet::insert'](ex, [a[0], it])
+    return UNIT()
+
+
+@prim('<AHashMap as Extend>::extend', '<HashMap as Extend>::extend')
+def _(ex, a):
+    for it in _items_of(ex, a[1]):
+        P['HashMap::insert'](ex, [a[0], it.f[0], it.f[1]])
+    return UNIT()
+
+
+@prim('<VecDeque as Extend>::extend', 'VecDeque::extend')
+def _(ex, a):
+    ex.deref(a[0]).f.extend(_items_of(ex, a[1]))
+    return UNIT()
+
+
+@prim('<BinaryHeap as Extend>::extend', 'BinaryHeap::extend')
+def _(ex, a):
+    for it in _items_of(ex, a[1]):
+        P['BinaryHeap::push'](ex, [a[0], it])
+    return UNIT()
